@@ -206,6 +206,19 @@ func runRaceChild(rng *rand.Rand, n int, out *Out, _ []string) {
 	var stop int32
 	var wg sync.WaitGroup
 	var mu sync.Mutex
+	// accounts the pool has no manager for yet (every first read or patch lookup of an account creates one)
+	others := []types.Address{g.User4.Address, g.User5.Address, g.User6.Address, g.User7.Address, g.User8.Address, g.User9.Address, g.User10.Address,
+		g.Pillar1.Address, g.Pillar2.Address, g.Pillar3.Address, types.TokenContract, types.PillarContract, types.PlasmaContract}
+	wg.Add(1)
+	go func() {
+		defer wg.Done()
+		for i := 0; atomic.LoadInt32(&stop) == 0; i++ {
+			a := others[i%len(others)]
+			_ = nd.Ch.GetFrontierAccountStore(a).Identifier()
+			_ = nd.Ch.GetUncommittedAccountBlocksByAddress(a)
+			time.Sleep(150 * time.Microsecond)
+		}
+	}()
 	for w := 0; w < 4; w++ {
 		wg.Add(1)
 		go func(w int) {
@@ -257,9 +270,25 @@ func runRaceChild(rng *rand.Rand, n int, out *Out, _ []string) {
 	}
 	for s := 0; s < n; s++ {
 		u := r.users[rng.Intn(3)]
-		switch rng.Intn(10) {
+		switch rng.Intn(12) {
 		case 0, 1:
 			nd.Momentum()
+		case 10:
+			// the gossip entry of the product (the chain bridge looks the block up in the pool under the insert lock)
+			if tx, err := r.craft(u, types.HashHeight{}, uint64(rng.Intn(2000)), 0); err == nil {
+				func() {
+					defer func() { recover() }()
+					BridgeOf(nd).AddAccountBlocks([]*nom.AccountBlock{tx.Block})
+				}()
+			}
+		case 11:
+			// patch lookups under the insert lock, as the chain bridge makes them, also for accounts without a manager
+			ins := nd.Ch.AcquireInsert("race-lookup")
+			for k := 0; k < 3; k++ {
+				a := others[rng.Intn(len(others))]
+				_ = nd.Ch.GetPatch(a, nd.Ch.GetFrontierAccountStore(a).Identifier())
+			}
+			ins.Unlock()
 		case 2:
 			v := view(nd, u.Address)
 			if len(v.pool) > 0 {
